@@ -14,6 +14,9 @@ func init() {
 	replayers["C03"] = replayC03
 }
 
+// LITAB runs on every string over {a,b} up to the length bound (c never occurs in its patterns)
+var profLitAB = profile{name: "{a,b} only", input: []rune{'a', 'b'}}
+
 var profCorpus = profile{name: "per-pattern inputs (short strings over the pattern's letters + witness neighbourhood, lang.go)"}
 
 func accelFamilies(thorough bool) (jobs []job) {
@@ -49,6 +52,14 @@ func accelFamilies(thorough bool) (jobs []job) {
 	}
 	add("CORPUS", corpus, "", profCorpus, 3)
 	add("CORPUS", corpus, "G", profCorpus, 3)
+	for _, pr := range []profile{profPP, profPQ} {
+		add("SEQ k<=2 anchored", seq2, "", pr, 3)
+		add("SEQ k<=2 anchored", seq2, "G", pr, 3)
+		add("ALT", altL, "", pr, 3)
+	}
+	litab := litABFamily(thorough)
+	add("LITAB", litab, "", profLitAB, 10)
+	add("LITAB", litab, "R", profLitAB, 9)
 	for _, o := range []optSet{"", "G", "R"} {
 		L := 4
 		if o == "" {
